@@ -95,7 +95,15 @@ func (m *RWMutex) Unlock() {
 	}
 	m.w = false
 	m.owner = nil
+	released(m)
 	ran()
+}
+
+// released keeps the per-thread count of scheduled mutexes held.
+func released(m *RWMutex) {
+	if cur != nil && cur.running != nil && !m.NoYield && cur.running.held > 0 {
+		cur.running.held--
+	}
 }
 
 func (m *RWMutex) RUnlock() {
@@ -103,6 +111,7 @@ func (m *RWMutex) RUnlock() {
 		panic("vsync: RUnlock of unlocked RWMutex")
 	}
 	m.r--
+	released(m)
 	ran()
 }
 
@@ -213,6 +222,7 @@ type Thread struct {
 	woken  bool
 	ranOps bool // executed a lock operation since it was granted the processor
 	abort  bool
+	held   int // scheduled (yielding) mutexes currently held by this thread
 	// UnlockedBroadcasts counts Broadcast/Signal calls of this thread issued
 	// without holding the condition's mutex.
 	UnlockedBroadcasts int
@@ -342,11 +352,17 @@ func lockDirect(l Locker, t *Thread) {
 			panic("vsync: woken thread granted although the mutex is held")
 		}
 		m.w, m.owner = true, t
+		if !m.NoYield {
+			t.held++
+		}
 	case *Mutex:
 		if !m.rw.canLock() {
 			panic("vsync: woken thread granted although the mutex is held")
 		}
 		m.rw.w, m.rw.owner = true, t
+		if !m.rw.NoYield {
+			t.held++
+		}
 	default:
 		l.Lock()
 	}
@@ -364,10 +380,14 @@ func acquire(m *RWMutex, write bool) {
 		}
 		return m.canRLock()
 	}
-	if t != nil && m.NoYield && s.Inner {
+	// A NoYield mutex is meant to be taken only INSIDE a critical section of a scheduled mutex. If the code
+	// under test takes it while holding none (e.g. a lookup that no longer takes the stream lock), the
+	// acquisition is an ordinary scheduling point: other threads' critical sections can run right before it.
+	noYield := m.NoYield && !(t != nil && t.held == 0)
+	if t != nil && noYield && s.Inner {
 		s.park(t, PosInner)
 	}
-	if t != nil && !m.NoYield {
+	if t != nil && !noYield {
 		for t.ranOps || !avail() {
 			t.want, t.wantW = m, write
 			if write {
@@ -389,5 +409,8 @@ func acquire(m *RWMutex, write bool) {
 	}
 	if t != nil {
 		t.ranOps = true
+		if !m.NoYield {
+			t.held++
+		}
 	}
 }
